@@ -4,7 +4,7 @@
 From Coq Require Import ZArith List Bool Arith Sorted Permutation.
 From Centro Require Import Base.SortC18 Model.VecC18 Model.RankC18 Model.MedianC18 Model.IndexesC18 Spec.SpecC18
   Proofs.RankC18Proofs Proofs.BinsC18Proofs Proofs.CheckC18 Proofs.MedianC18Proofs Proofs.ModeC18Proofs
-  Proofs.IndexesC18Proofs.
+  Proofs.IndexesC18Proofs Proofs.PairsC18Proofs.
 Import ListNotations.
 Local Open Scope nat_scope.
 
@@ -71,3 +71,31 @@ Theorem C18_indexes_rowmajor : forall counts : list (list nat),
   indexes counts = indexes_ref counts.
 Proof. exact indexes_rowmajor. Qed.
 Print Assumptions C18_indexes_rowmajor.
+
+(* pairwise_permutations: with [rows] = the (group, member) rows sorted by group then member (a
+   permutation of the input rows), the output lists exactly the position pairs a < b of [rows]
+   with equal group label, in (a, b) order; [pos_pairs n] holds every a < b < n exactly once
+   (C18_pos_pairs_once), so every unordered within-group pair appears exactly once. *)
+Theorem C18_pairwise_once : forall i j : list Z, length i = length j ->
+  let '(di, d1, d2) := pairwise_permutations i j in
+  let rows := sorted_rows i j in
+  Permutation rows (combine i j) /\
+  combine (combine di d1) d2 =
+    map (fun ab => (fst (nth (fst ab) rows (0,0)%Z), snd (nth (fst ab) rows (0,0)%Z), snd (nth (snd ab) rows (0,0)%Z)))
+        (filter (fun ab => (fst (nth (snd ab) rows (0,0)%Z) =? fst (nth (fst ab) rows (0,0)%Z))%Z) (pos_pairs (length rows))).
+Proof. exact pairwise_once. Qed.
+Print Assumptions C18_pairwise_once.
+
+Theorem C18_pos_pairs_once : forall n,
+  NoDup (pos_pairs n) /\ forall a b, In (a, b) (pos_pairs n) <-> a < b < n.
+Proof. exact pos_pairs_once. Qed.
+Print Assumptions C18_pos_pairs_once.
+
+(* the model's three arrays have equal lengths and zip to the executable reference that the
+   harness also evaluates on the implementation's output *)
+Theorem C18_pairwise_model_ref : forall i j : list Z, length i = length j ->
+  let '(di, d1, d2) := pairwise_permutations i j in
+  length di = length d1 /\ length d1 = length d2 /\
+  combine (combine di d1) d2 = pairwise_ref i j.
+Proof. exact pairwise_model_ref. Qed.
+Print Assumptions C18_pairwise_model_ref.
